@@ -15,7 +15,9 @@ Tools for lifting variant-decoder theorems (`Model.call`, `Model.replLoop`) to t
   or `ConvertingWithPendingBB`, and a decoder in one of these two states cannot reach the model's
   panic value.
 * `ReplChain`: the with-replacement loop `Decoder.replCall` unrolled into its chain of raw calls
-  (`replCall_chain`, `replCall_chain_adm`); inductions over the loop are inductions over the chain.
+  (`replCall_chain`, `replCall_chain_adm`; conversely `replChain_replCall`, `replChain_replCall_adm`:
+  the chain is the loop in relational form — it is also what the driver's `checkRepl` searches for);
+  inductions over the loop are inductions over the chain.
 * reachability: `DReach` (C07Life) and `DReachAt` (C06More) describe the same decoders
   (`dreach_at`, `dreachAt_dreach`); both are closed under with-replacement calls
   (`replChain_reachAt`), so `DReachAny` — any mix of the four public methods — adds nothing
@@ -502,6 +504,61 @@ theorem replCall_chain_adm (k : Sink) (last : Bool) :
         simp only [Option.some.injEq] at h
         subst h
         exact .stop cap d src _ _ _ read out d' inner hcall (by intro l a h; cases h) hadm.1
+
+/-- conversely every chain is a completed with-replacement call (for some fuel and stop policies):
+`ReplChain` is `Decoder.replCall` in relational form -/
+theorem replChain_replCall {k : Sink} {last : Bool} {A : Nat → List (List Nat × Res × Nat) → Prop} {cap : Nat}
+    {d : Decoder F} {src : List Nat} {t : DReplRes F} (h : ReplChain k last A cap d src t) :
+    ∃ fuel bs, Decoder.replCall k last fuel d src bs = some (some t) := by
+  induction h with
+  | stop cap d src b1 b2 res read out d' inner hcall hne _ =>
+    refine ⟨1, [(b1, b2)], ?_⟩
+    rw [Decoder.replCall]
+    simp only [List.headD_cons]
+    rw [hcall]
+    cases res with
+    | malformed l a => exact absurd rfl (hne l a)
+    | inputEmpty => rfl
+    | outputFull => rfl
+  | step cap d src b1 b2 l a read out d' inner t hcall _ _ ih =>
+    obtain ⟨fuel, bs, hrec⟩ := ih
+    refine ⟨fuel + 1, (b1, b2) :: bs, ?_⟩
+    rw [Decoder.replCall]
+    simp only [List.headD_cons, List.tail_cons]
+    rw [hcall]
+    simp only
+    rw [hrec]
+
+/-- … and a chain with admissible inner calls is a call satisfying `DReplAdmissible` -/
+theorem replChain_replCall_adm {k : Sink} {last : Bool} {cap : Nat} {d : Decoder F} {src : List Nat}
+    {t : DReplRes F} (h : ReplChain k last (InnerAdmissible k) cap d src t) :
+    ∃ fuel bs, Decoder.replCall k last fuel d src bs = some (some t) ∧ DReplAdmissible k last fuel d src bs cap := by
+  induction h with
+  | stop cap d src b1 b2 res read out d' inner hcall hne hadm =>
+    refine ⟨1, [(b1, b2)], ?_, ?_⟩
+    · rw [Decoder.replCall]
+      simp only [List.headD_cons]
+      rw [hcall]
+      cases res with
+      | malformed l a => exact absurd rfl (hne l a)
+      | inputEmpty => rfl
+      | outputFull => rfl
+    · rw [DReplAdmissible]
+      simp only [List.headD_cons]
+      rw [hcall]
+      exact ⟨hadm, fun l a h => absurd h (hne l a)⟩
+  | step cap d src b1 b2 l a read out d' inner t hcall hadm _ ih =>
+    obtain ⟨fuel, bs, hrec, hra⟩ := ih
+    refine ⟨fuel + 1, (b1, b2) :: bs, ?_, ?_⟩
+    · rw [Decoder.replCall]
+      simp only [List.headD_cons, List.tail_cons]
+      rw [hcall]
+      simp only
+      rw [hrec]
+    · rw [DReplAdmissible]
+      simp only [List.headD_cons, List.tail_cons]
+      rw [hcall]
+      exact ⟨hadm, fun _ _ _ => hra⟩
 
 /-- the with-replacement call never reports `Malformed` -/
 theorem replChain_res {k : Sink} {last : Bool} {A : Nat → List (List Nat × Res × Nat) → Prop} {cap : Nat}
